@@ -12,6 +12,7 @@ from __future__ import annotations
 import datetime as dt_
 import operator
 
+from .. import worker
 from .. import core, obs
 
 ID = "C10"
@@ -161,14 +162,16 @@ def run_shard(shard):
     if shard["kind"] == "pairs":
         for a in shard["left"]:
             for b in vals:
-                check_pair(acc, pendulum, a, b)
+                with worker.guarded(acc, "arith", {"kind": "pair", "a": a, "b": b}):
+                    check_pair(acc, pendulum, a, b)
                 if b and a % b == 0:
                     acc.c["nontrivial"] += 1
             acc.c["states"] += 1
         acc.sample({"a_us": shard["left"][0], "b_us": vals[5], "ops": "+ - // / % divmod == < (both orders, both types)"})
     elif shard["kind"] == "nums":
         for a in shard["left"]:
-            check_unary_num(acc, pendulum, a, shard["nums"])
+            with worker.guarded(acc, "arith", {"kind": "un", "a": a}):
+                check_unary_num(acc, pendulum, a, shard["nums"])
             acc.c["states"] += 1
             for n in shard["nums"]:
                 # exact half-way cases of the rounded division / multiplication
